@@ -189,11 +189,11 @@ def explore(rec, start, depth, leaves):
 def gen_ops(tier, seed):
     for v in VALUES:
         for k in CLASSES:
-            yield {'value': v, 'cls': k, 'depth': 3 if tier == 'thorough' else 2, 'alphabet': 'full'}
-    if tier == 'quick':
+            yield {'value': v, 'cls': k, 'depth': 3, 'alphabet': 'full'}
+    if tier == 'thorough':
         for v in [0.0, S, -0.5, 0.3, -(2.0 + 1.0 / 60), 60.0]:
             for k in CLASSES:
-                yield {'value': v, 'cls': k, 'depth': 3, 'alphabet': 'sub6'}
+                yield {'value': v, 'cls': k, 'depth': 4, 'alphabet': 'sub6'}
 
 
 _LEAVES = {}
@@ -278,5 +278,5 @@ SUBCHECKS = [
 
 def bounds(tier, seed):
     return {'leaf_values': len(VALUES), 'classes': CLASSES, 'scalars': KS, 'mods': MODS, 'round_places': NS,
-            'depth_full_alphabet': 3 if tier == 'thorough' else 2, 'depth_sub_alphabet': 3,
+            'depth_full_alphabet': 3, 'depth_sub_alphabet': 4 if tier == 'thorough' else None,
             'chain_depth': 6, 'chain_assignments': 5 ** 7}
